@@ -21,8 +21,8 @@ import sys,json,re
 name,prop,pkg,pat,tags,v,c=sys.argv[1:8]
 checks={}
 for l in c.split("\n"):
-    m=re.match(r"CHECK (\S+) rc=(\d+) violations=(\d+) :: (.*?) :: (.*)",l)
-    if m: checks[m.group(1)]={"rc":int(m.group(2)),"violation_lines":int(m.group(3)),"first":m.group(4),"summary":m.group(5)}
+    m=re.match(r"CHECK (\S+) rc=(\d+) violations=(\d+) :: (.*?) :: (.*?)(?: :: (.*))?$",l)
+    if m: checks[m.group(1)]={"rc":int(m.group(2)),"violation_lines":int(m.group(3)),"first":m.group(4),"summary":m.group(5),"what":(m.group(6) or "").strip()}
 meta={"name":name,"breaks_property":prop,"demo":{"copy_to":pkg+"/zz_seed_demo_test.go","run":"go test -vet=off -count=1 %s-run '%s' ./%s/"%(("-tags %s "%tags) if tags else "",pat,pkg)},
  "confirmed":v,"checks_run":checks,"caught_by":[k for k,x in checks.items() if x["rc"]==1 and x["violation_lines"]>0]}
 p="/verif/seeded/%s/meta.json"%name
